@@ -287,7 +287,7 @@ def conclude(prop, args, tot, shard_failures, wall, n_planned):
             n_mon_err, (tot['inconclusive'][0].get('trace') or '')[-400:]))
     replay_paths = []
     for v in new[:10]:
-        d = os.path.join(VERIF, 'replays', pid)
+        d = os.path.join(os.environ.get('VERIF_REPLAY_DIR') or os.path.join(VERIF, 'replays'), pid)
         os.makedirs(d, exist_ok=True)
         path = os.path.join(d, '%s_s%d_i%d.json' % (args.tier, args.seed, v['idx']))
         with open(path, 'w') as f:
@@ -319,8 +319,9 @@ def conclude(prop, args, tot, shard_failures, wall, n_planned):
     ev = {'property_id': pid, 'tier': args.tier, 'seed': args.seed, 'level': 'exploration',
           'coverage': cov, 'assumptions': list(prop.assumptions), 'wall_s': round(wall, 2),
           'violations': len(new)}
-    os.makedirs(os.path.join(VERIF, 'evidence'), exist_ok=True)
-    with open(os.path.join(VERIF, 'evidence', pid + '.json'), 'w') as f:
+    evdir = os.environ.get('VERIF_EVIDENCE_DIR') or os.path.join(VERIF, 'evidence')
+    os.makedirs(evdir, exist_ok=True)
+    with open(os.path.join(evdir, pid + '.json'), 'w') as f:
         json.dump(ev, f, indent=1, default=repr)
     print('%s tier=%s seed=%d cases=%d evaluations=%d distinct_nontrivial=%d verdicts=%s wall=%.1fs'
           % (pid, args.tier, args.seed, tot['cases'], tot['evals'], len(tot['keys']),
